@@ -79,6 +79,50 @@ def _run(cmd, timeout=None, mem_gb=None, cwd=None, env=None):
     return p.returncode, out, err, time.time() - t0, to
 
 
+def _run_portfolio(cmds, timeout=None, mem_gb=None):
+    """run the same query with several SAT back ends side by side; the first process that ends with a verdict
+    (cbmc exit code 0 or 10) wins and the others are stopped.  Returns (rc, stdout, stderr, seconds, timed_out, index)."""
+    import tempfile as _tf
+    def pre():
+        os.setsid()
+        if mem_gb:
+            lim = int(mem_gb * (1 << 30))
+            resource.setrlimit(resource.RLIMIT_AS, (lim, lim))
+    t0 = time.time()
+    procs = []
+    for c in cmds:
+        fo, fe = _tf.TemporaryFile(mode="w+"), _tf.TemporaryFile(mode="w+")
+        procs.append((subprocess.Popen(c, stdout=fo, stderr=fe, preexec_fn=pre, text=True), fo, fe))
+    def kill(p):
+        try:
+            os.killpg(p.pid, signal.SIGKILL)
+        except ProcessLookupError:
+            pass
+        p.wait()
+    def read(f):
+        f.seek(0)
+        return f.read()
+    done = {}
+    try:
+        while True:
+            for i, (p, fo, fe) in enumerate(procs):
+                if i not in done and p.poll() is not None:
+                    done[i] = p.returncode
+                    if p.returncode in (0, 10):
+                        return p.returncode, read(fo), read(fe), time.time() - t0, False, i
+            if len(done) == len(procs):
+                i = max(done)
+                return done[i], read(procs[i][1]), read(procs[i][2]), time.time() - t0, False, i
+            if timeout is not None and time.time() - t0 > timeout:
+                return -1, "", "", time.time() - t0, True, -1
+            time.sleep(0.2)
+    finally:
+        for p, fo, fe in procs:
+            if p.poll() is None:
+                kill(p)
+            fo.close(), fe.close()
+
+
 class Snapshot:
     """A scratch copy of /repo's current working tree (m4ri/*.c, *.h, config headers), one
     directory per configuration, outside /repo and /verif; removed at exit."""
@@ -389,7 +433,15 @@ class Runner:
                 cmd += ["--enforce-contract", f]
             for f in g.enforce_rec:
                 cmd += ["--enforce-contract-rec", f]
-            for f in g.replace:
+            replace = list(g.replace)
+            if replace:
+                # dfcc aborts on a replacement target that is not in the symbol table (a callee the code under proof no longer
+                # references is dropped at link time): such targets are skipped, see the must-fire rule below
+                rc, so, se, dt, to = _run(["goto-instrument", "--show-symbol-table", gb0], timeout=300)
+                if rc == 0 and not to:
+                    syms = set(re.findall(r"^Symbol\.+: (\S+)$", so, flags=re.M))
+                    replace = [f for f in replace if f in syms]
+            for f in replace:
                 cmd += ["--replace-call-with-contract", f]
             if g.loop_contracts:
                 cmd += ["--apply-loop-contracts"]
@@ -406,10 +458,13 @@ class Runner:
                 if not re.search(r"Wrapping '%s' with contract '%s' in CHECK mode" % (re.escape(f), re.escape(f)), log):
                     res.state, res.reason = "error", "EXTRACTION-BROKEN: contract of %s was not enforced (function renamed/removed?)" % f
                     return None
-            for f in g.replace:
-                if not re.search(r"Wrapping '%s' with contract '%s' in REPLACE mode" % (re.escape(f), re.escape(f)), log):
-                    res.state, res.reason = "error", "EXTRACTION-BROKEN: contract of %s was not used for replacement" % f
-                    return None
+            # a callee contract that is no longer used is not an extraction failure (the code under proof may have stopped calling
+            # it -- the remaining obligations decide that); a callee without body and without contract fails CBMC's own
+            # "no body for callee" obligation.  At least one replacement must have happened where any was requested.
+            fired = [f for f in g.replace if re.search(r"Wrapping '%s' with contract '%s' in REPLACE mode" % (re.escape(f), re.escape(f)), log)]
+            if g.replace and not fired:
+                res.state, res.reason = "error", "EXTRACTION-BROKEN: none of the callee contracts (%s) was used for replacement" % ", ".join(g.replace)
+                return None
         res.gb = gb1
         return gb1
 
@@ -430,7 +485,7 @@ class Runner:
             cmd.append("--unwinding-assertions")
         if g.object_bits:
             cmd += ["--object-bits", str(g.object_bits)]
-        if g.solver:
+        if g.solver and g.solver != "portfolio":
             cmd += g.solver.split()
         cmd += g.cbmc_flags
         cmd += list(extra)
@@ -458,8 +513,14 @@ class Runner:
                 return res
         res.unwindset = us
         cmd = self.cbmc_cmd(g, gb, us)
+        if g.solver == "portfolio":
+            # MiniSat and CaDiCaL differ by an order of magnitude in either direction on these formulas (measured); both are run
+            alts = [cmd, cmd + ["--sat-solver", "cadical"]]
+            rc, so, se, dt, to, win = _run_portfolio(alts, timeout=g.timeout, mem_gb=g.mem_gb)
+            cmd = alts[win] if win >= 0 else cmd
+        else:
+            rc, so, se, dt, to = _run(cmd, timeout=g.timeout, mem_gb=g.mem_gb)
         res.cmds.append(" ".join(cmd))
-        rc, so, se, dt, to = _run(cmd, timeout=g.timeout, mem_gb=g.mem_gb)
         res.t_solve += dt
         if to:
             res.state, res.reason = "undecided", "cbmc timeout after %ds" % g.timeout
@@ -542,7 +603,7 @@ class Runner:
             for pid in fails:
                 key = pid.replace(".unwind.", ".")
                 cur = us.get(key, g.unwind or 1)
-                ladder = [b for b in (9, 18, 34, 66, 72, 130, 136, 200, 260, 520, 1040) if b > cur]
+                ladder = [b for b in ((2, 3, 4, 6, 9) if (g.unwind or 9) < 4 else ()) + (9, 18, 34, 66, 72, 130, 136, 200, 260, 520, 1040) if b > cur]
                 us[key] = ladder[0] if ladder else cur * 2
                 # dfcc renames the function under contract; goto-cc renames duplicated statics
                 f, n = key.rsplit(".", 1)
